@@ -182,6 +182,25 @@ impl Monitor for C08 {
                 }
             }
         }
+        // special components: zeros of either sign, subnormals, the smallest normal and its predecessor, in
+        // either part of the placeholder, under the exact operations with ordinary partners: the component
+        // formulas hold for them as for any other finite value (seeded change C08-r10: fast paths in * that
+        // treat a subnormal component as zero)
+        {
+            let sp: [f64; 9] = [0.0, 5e-324, 1e-310, 3e-310, 2.225073858507201e-308, 2.2250738585072014e-308, 1e-300, 1.0, 3.0];
+            let forms = ["@*(2+3i)", "(2+3i)*@", "@*@", "@*2", "2*@", "@*3i", "2i*@", "@*i", "i*@", "@*(0.5-0.25i)", "@-(1+i)", "(1+i)-@", "-@", "@+(0.5-2i)", "@*(1-i)*(2+3i)", "@*4*(2+3i)", "@*1"];
+            for a in sp {
+                for b in sp {
+                    for (sa, sb) in [(1.0, 1.0), (-1.0, 1.0), (1.0, -1.0), (-1.0, -1.0)] {
+                        for form in forms {
+                            if ctx.mine() {
+                                ctx.check(&Case::new(ev, "special-components", form, Val::C(a * sa, b * sb)), &|c, st| self.judge(c, st));
+                            }
+                        }
+                    }
+                }
+            }
+        }
         // depth-2 over the exact operations (+ - * unary minus): component formulas exactly
         let leaf = |rng: &mut Rng| -> Ast {
             match rng.below(4) {
